@@ -292,6 +292,8 @@ structure Handle where
   rs : RStream
   /-- output position of a non-append writer -/
   pos : Nat
+  /-- the stream's error indicator (`ferror`): set by a read on a stream that cannot be read -/
+  err : Bool := false
 deriving Repr, DecidableEq
 
 /-- `File::open(name, mode)` / `TextFile::open(name, mode)` (`mode | TEXT`) -/
@@ -348,12 +350,24 @@ def hread (h : Handle) (n : Nat) : Bytes × Handle :=
   else ([], h)
 
 /-- `TextFile::readLine(char)` through an open object: on a stream that cannot be read (opened for writing) the first
-    `read` fails and the empty string is returned at once -/
+    `read` fails — the error indicator is set — and the empty string is returned at once -/
 def hreadLineDelim (h : Handle) (delim : UInt8) : Bytes × Handle :=
   if h.sm.canRead then
     let r := readLineDelim delim h.rs
     (r.1, { h with rs := r.2 })
-  else ([], h)
+  else ([], { h with err := true })
+
+/-- `TextFile::readLine(String&)` through an open object: on a stream that cannot be read `fgets` returns NULL with the
+    error indicator set: the empty string and `false` -/
+def hreadLine (chunk : Nat) (h : Handle) : (Bytes × Bool) × Handle :=
+  if h.sm.canRead then
+    let r := readLine chunk h.rs
+    (r.1, { h with rs := r.2 })
+  else (([], false), { h with err := true })
+
+/-- `end()`: `feof(_file) != 0 || ferror(_file) != 0` (repair 4bfeeba: it used to test `feof` only, so the documented
+    loop `while (!f.end()) f.readLine();` never ended after a failed read) -/
+def hend (h : Handle) : Bool := h.rs.eof || h.err
 
 /-- `seek(k)` from the start, `k ≤ size` -/
 def hseek (h : Handle) (k : Nat) : Handle :=
